@@ -439,6 +439,7 @@ def _main(tier, seed):
         igr, igr_paths, igr_q = init_gen_rand_obligation(ctx, mod_sfmt)
         cres = fut_cbmc.result()
 
+    ctx.account_native_failures()
     # ---- account cbmc
     viol = ctx.account_jobs(cres, lambda j: SFMT_DESCR[j["function"]])
     for j, r in cres:
